@@ -5,6 +5,7 @@ import Blue.Proofs.KvsConcHandoff
 import Blue.Proofs.KvsConcReads
 import Blue.Proofs.KvsConcFirstHit
 import Blue.Proofs.KvsConcSnapBridge
+import Blue.Proofs.KvsConcFail
 import Blue.Proofs.ConstsTieC06
 /-! # Property C06 — concurrent reads/writes are linearizable; batches become visible atomically
 
@@ -37,6 +38,14 @@ do not go back in time against each other), `batch_atomic` + `snapshot_stable` (
 batch entirely or not at all, and never changes) are the obligations of that linearization on the
 model.  `first_hit_eq_newest` ties the model's `lookup` (newest over the union of mem, imm and the
 version's tables) to what `KeyValueStore::load` does (first hit searching mem → imm → version).
+
+Writes that fail (`wFail`: the log refuses the batch after the write has taken its sequence number
+and its place in the wait list) leave the list without publishing anything and without having
+inserted anything; the published sequence has gaps.  Every theorem above holds with such steps
+anywhere in the run (they are steps of `Blue.KvsConc.step`; `reachable_inv` covers them), and
+`failed_write_invisible` / `wFail_changes_nothing_readable` say that a failed write has no effect
+on any read.  `failed_write_publishes_tears_batch` is the counterexample for a store whose failed
+writes publish their number on the way out.
 
 What the model does NOT have (said here once): a compaction is a version-number bump only
 (`tInstall`: same tables, other files) and garbage collection is absent — that they preserve the
@@ -293,6 +302,89 @@ theorem same_schedule_clone_under_mutex :
       = some [(2, [3, 1], true, some 7), (1, [3, 1, 1], true, some 7), (0, [3, 1], true, some 7)] :=
   Blue.KvsConc.same_schedule_clone_under_mutex
 
+/-! ### writes that fail -/
+
+/-- **a failed write has no effect on any read**: in every reachable state — any interleaving of
+    writers, failing writers, rotations, hand-offs, installs, readers — no entry of any table
+    carries the number of a write that failed, and no lookup through any snapshot returns one -/
+theorem failed_write_invisible {c : Bool} {seq0 mem0 : Nat} {evs : List Ev} {s : St}
+    (hrun : run (init c seq0 mem0) evs = some s) (q : Nat) (hq : q ∈ s.failed) :
+    (∀ te ∈ s.ents, te.2.seq ≠ q) ∧ ∀ (sn : Snap) (k : Nat) (e : Entry), lookup s sn k = some e → e.seq ≠ q :=
+  Blue.KvsConc.failed_write_invisible hrun q hq
+
+/-- the number of a failed write is never the published one, is out of the wait list, and no
+    writer carries it: the published sequence has a gap there for ever -/
+theorem failed_never_published {c : Bool} {seq0 mem0 : Nat} {evs : List Ev} {s : St}
+    (hrun : run (init c seq0 mem0) evs = some s) (q : Nat) (hq : q ∈ s.failed) :
+    s.visible ≠ q ∧ Ticket.w q ∉ s.queue ∧ q ≤ s.seqNo ∧ ∀ w ∈ s.writers, w.seq ≠ q :=
+  Blue.KvsConc.failed_never_published hrun q hq
+
+/-- … and is not handed out again -/
+theorem failed_number_not_reused {c : Bool} {seq0 mem0 : Nat} {evs : List Ev} {s s' : St}
+    (hrun : run (init c seq0 mem0) evs = some s) (q t : Nat) (b : List (Nat × Option Nat))
+    (hs : step s (.wBegin q t b) = some s') : ∀ f ∈ s.failed, f < q :=
+  Blue.KvsConc.failed_number_not_reused hrun q t b hs
+
+/-- **the failing step moves nothing a reader can see**: `visible`, the timestamp a reader would
+    take, every table and every snapshot's view are as before; the number is recorded as failed,
+    the ticket is out of the wait list, the writer is forgotten -/
+theorem wFail_changes_nothing_readable {s s' : St} {q : Nat} (hs : step s (.wFail q) = some s') :
+    s'.visible = s.visible ∧ s'.seqNo = s.seqNo ∧ readTs s' = readTs s ∧ s'.ents = s.ents
+      ∧ s'.readers = s.readers ∧ (∀ sn, view s' sn = view s sn)
+      ∧ s'.failed = q :: s.failed ∧ Ticket.w q ∉ s'.queue ∧ ∀ w ∈ s'.writers, w.seq ≠ q :=
+  Blue.KvsConc.wFail_changes_nothing_readable hs
+
+/-- when the step is enabled: the write has begun, has not left the list, has inserted nothing and
+    its log append has not returned -/
+theorem wFail_enabled_iff {s : St} {q : Nat} :
+    (∃ s', step s (.wFail q) = some s') ↔
+      ∃ w, findWriter s q = some w ∧ w.finished = false ∧ w.todo = w.batch ∧ q ∉ s.logged :=
+  Blue.KvsConc.wFail_enabled_iff
+
+/-! non-vacuity: a failing write queued behind a batch that is being inserted, a reader in the
+    window, then the successor: the gap at 4 is covered by 5 and both later readers see batch 3
+    whole; and a failing write AT THE HEAD with a successor behind it -/
+theorem gap_is_covered_by_successor :
+    (run (init true 2 1) [.wBegin 3 1 [(1, some 7), (2, some 7)], .wLog 3, .wIns 3 0, .wBegin 4 1 [], .wFail 4,
+        .rTree 0 0, .rSnap 0 2 1 false, .wIns 3 1, .wBegin 5 1 [(1, some 9)], .wLog 5, .wIns 5 0, .wFin 3,
+        .rTree 1 0, .rSnap 1 3 1 false, .wFin 5, .rTree 2 0, .rSnap 2 5 1 false]).map
+      (fun s => (s.failed, s.visible, s.queue.length)) = some ([4], 5, 0) ∧
+    (run (init true 2 1) [.wBegin 3 1 [(1, some 7), (2, some 7)], .wLog 3, .wIns 3 0, .wBegin 4 1 [], .wFail 4,
+        .rTree 0 0, .rSnap 0 2 1 false, .wIns 3 1, .wBegin 5 1 [(1, some 9)], .wLog 5, .wIns 5 0, .wFin 3,
+        .rTree 1 0, .rSnap 1 3 1 false, .wFin 5, .rTree 2 0, .rSnap 2 5 1 false]).map
+      (fun s => s.readers.map (fun r => (r.2.ts, value s r.2 1, value s r.2 2)))
+      = some [(5, some 9, some 7), (3, some 7, some 7), (2, none, none)] :=
+  Blue.KvsConc.gap_is_covered_by_successor
+
+theorem failed_head_hands_on :
+    (run (init true 2 1) [.wBegin 3 1 [], .wBegin 4 1 [(1, some 7)], .wLog 4, .wIns 4 0, .wFail 3, .wFin 4,
+        .rTree 0 0, .rSnap 0 4 1 false]).map
+      (fun s => (s.failed, s.visible, s.queue.length, s.readers.map (fun r => (r.2.ts, value s r.2 1))))
+      = some ([3], 4, 0, [(4, some 7)]) :=
+  Blue.KvsConc.failed_head_hands_on
+
+example : ((run (init true 2 1) [.wBegin 3 1 [(1, some 7)], .wBegin 4 1 []]).bind (fun s => step s (.wFail 4))).map
+    (fun s' => s'.failed) = some [4] := by decide
+
+/-- **`failed_write_publishes_tears_batch`** (the seeded restructuring of `write`'s error path: a
+    failed write does not wait for its turn and publishes `max visible seq`; `stepMut`): write 3
+    has inserted the first key of its two-key batch, write 4 fails behind it and publishes 4, a
+    reader that comes now reads at 4 and finds key 1 of the batch and not key 2 -/
+theorem failed_write_publishes_tears_batch :
+    (runMut (init true 2 1) [.wBegin 3 1 [(1, some 7), (2, some 7)], .wLog 3, .wIns 3 0, .wBegin 4 1 [],
+        .wFail 4, .rTree 0 0, .rSnap 0 4 1 false]).map
+      (fun s => s.readers.map (fun r => (r.2.ts, value s r.2 1, value s r.2 2))) = some [(4, some 7, none)] :=
+  Blue.KvsConc.failed_write_publishes_tears_batch
+
+/-- … the same events on the model of the code: the timestamp is 2, nothing of the batch shows -/
+theorem same_schedule_failed_write_publishes_nothing :
+    run (init true 2 1) [.wBegin 3 1 [(1, some 7), (2, some 7)], .wLog 3, .wIns 3 0, .wBegin 4 1 [],
+        .wFail 4, .rTree 0 0, .rSnap 0 4 1 false] = none ∧
+    (run (init true 2 1) [.wBegin 3 1 [(1, some 7), (2, some 7)], .wLog 3, .wIns 3 0, .wBegin 4 1 [],
+        .wFail 4, .rTree 0 0, .rSnap 0 2 1 false]).map
+      (fun s => s.readers.map (fun r => (r.2.ts, value s r.2 1, value s r.2 2))) = some [(2, none, none)] :=
+  Blue.KvsConc.same_schedule_failed_write_publishes_nothing
+
 end conc
 
 /-! ## the read timestamp as found (D-6) -/
@@ -425,4 +517,14 @@ end Blue.Props.C06
 #print axioms Blue.Props.C06.mem_seq_assigned
 #print axioms Blue.Props.C06.snapshot_complete
 #print axioms Blue.Props.C06.clear_before_install_loses
+#print axioms Blue.Props.C06.failed_write_invisible
+#print axioms Blue.Props.C06.failed_never_published
+#print axioms Blue.Props.C06.failed_number_not_reused
+#print axioms Blue.Props.C06.wFail_changes_nothing_readable
+#print axioms Blue.Props.C06.wFail_enabled_iff
+#print axioms Blue.Props.C06.gap_is_covered_by_successor
+#print axioms Blue.Props.C06.failed_head_hands_on
+#print axioms Blue.Props.C06.failed_write_publishes_tears_batch
+#print axioms Blue.Props.C06.same_schedule_failed_write_publishes_nothing
 #print axioms Blue.ConstsTie.kvs_read_policy
+#print axioms Blue.ConstsTie.kvs_failed_write_exit
